@@ -150,11 +150,48 @@ def gen_call(rng, pidx, p, o, entries=None):
     variant["bare"] = rng.randrange(2)
     variant["tl_object"] = rng.random() < 0.3
     env = gen_env(rng, p, c, o)
+    if is_async and (env["bs_cancel"] or env["sleep_cancel"]) and rng.random() < 0.7:
+        variant.update(throw=True, suspend_bs=True, suspend_sleep=True, sync_hooks=False)
     return {"policy": pidx, "entry": entry, "async": is_async, "mode": mode, "cfg": c, "env": env,
             "gap": rng.choice([0, 0, 1, 5, 64]), "variant": variant}
 
 
+def cap_mix_sequence(rng, o):
+    """one call whose failures interleave a capped class K with another retryable class J: the caps count the retries
+    granted after K failures over the whole call, not consecutive ones"""
+    p = gen_policy(rng, o)
+    k = rng.choice(RETRYABLE)
+    j = rng.choice([x for x in RETRYABLE if x != k])
+    cap = rng.choice([0, 1, 1, 2])
+    p.update(max_attempts=rng.choice([6, 8, 9]), deadline=2**33, per_class={}, max_unknown=None, strat_default=False, strat_tab={})
+    if k == "UNKNOWN" and rng.random() < 0.7:
+        p["max_unknown"] = cap
+    else:
+        p["per_class"] = {k: cap}
+    if rng.random() < 0.3:
+        p["per_class"][j] = rng.choice([2, 3])
+    call = gen_call(rng, 0, p, dict(o, p_abort=0.0, p_handler=0.0))
+    n = p["max_attempts"] + 1
+    pattern = rng.choice([[k, j, k, k, j, k, k, k, k], [j, k, j, k, j, k, k, k, k], [k, j, j, k, j, k, j, k, k], [k, k, j, k, k, k, k, k, k]])
+    ops = []
+    for i in range(n):
+        kl = pattern[i % len(pattern)]
+        kind = "V" if (p["has_rc"] and rng.random() < 0.4) else "R"
+        ops.append([kind, rng.choice([0, 1]), kl, None])
+    call["env"]["ops"] = ops
+    call["env"]["strat"] = [rng.choice([0, 1, 2]) for _ in range(n)]
+    call["env"]["over"] = [0] * n
+    call["env"]["handler"] = []
+    call["env"]["sleep_cancel"] = []
+    call["env"]["bs_cancel"] = []
+    call["cfg"].update(handler_c=False, has_abort=False)
+    call["cfg"]["handler_p"] = p["handler_p"] = False
+    return {"t0": 0, "budget": None, "breaker": None, "policies": [p], "calls": [call]}
+
+
 def gen_sequence(rng, o):
+    if rng.random() < o.get("p_cap_mix", 0.0):
+        return cap_mix_sequence(rng, o)
     n_pol = 1 if rng.random() < 0.8 else 2
     policies = [gen_policy(rng, o) for _ in range(n_pol)]
     budget = None
@@ -263,6 +300,8 @@ def g_event(e):
         return G.con("EStrat", g_sid(sid), G.b(legacy), gz(att), klass, goz(ra), goz(prev), goz(rem), g_cause(cause))
     if t == "B":
         return G.con("EBudget", G.b(e[1]))
+    if t == "BR":      # Budget.remaining() called by the retry loop: the model only ever calls consume()
+        return G.con("EBudget", G.b(isinstance(e[1], int) and e[1] > 0))
     if t == "M":
         tg, ok = g_tags(e[4])
         name = EVN.get(e[1], "N_OTHER") if ok else "N_OTHER"
